@@ -300,13 +300,36 @@ func (res *Response) ReadFrom(r io.Reader) (n int64, err error) {
 		return 0, nil
 	}
 
-	res.hasBody = true
-	res.eoncodeHead()
-	_, err = c.Write(*res.buffer)
-	mempool.Free(res.buffer)
-	res.buffer = nil
+	res.WriteHeader(http.StatusOK)
+	res.checkChunked()
+	cl, err := res.contentLength()
 	if err != nil {
 		return 0, err
+	}
+	if res.chunked || cl <= 0 {
+		// The body has to be framed as chunks, or to be measured for the
+		// Content-Length field: it goes through Write like any other body.
+		return io.Copy(struct{ io.Writer }{res}, r)
+	}
+
+	res.hasBody = true
+	res.eoncodeHead()
+	// Send the head and the body bytes written so far before the reader's.
+	if pbuf := res.buffer; pbuf != nil {
+		res.buffer = nil
+		_, err = c.Write(*pbuf)
+		mempool.Free(pbuf)
+		if err != nil {
+			return 0, err
+		}
+	}
+	if pbuf := res.bodyBuffer; pbuf != nil {
+		res.bodyBuffer = nil
+		_, err = c.Write(*pbuf)
+		mempool.Free(pbuf)
+		if err != nil {
+			return 0, err
+		}
 	}
 
 	if !res.Parser.Engine.DisableSendfile {
@@ -338,12 +361,15 @@ func (res *Response) ReadFrom(r io.Reader) (n int64, err error) {
 			}
 			if ok {
 				ns, err := nc.Sendfile(f, n)
+				res.bodyWritten += int(ns)
 				return ns, err
 			}
 		}
 	}
 
-	return io.Copy(c, r)
+	n, err = io.Copy(c, r)
+	res.bodyWritten += int(n)
+	return n, err
 }
 
 // Push implements the http.Pusher interface.
